@@ -1,3 +1,51 @@
-(* Props/C14.v -- property theorems only (filled in as the proofs land) *)
-From Coq Require Import ZArith.
-From Falcon Require Import Base.Res.
+(* Props/C14.v -- property theorems only.
+   func_shape / runs_equiv (lockstep) are the specification notions of Flow/DCESpec.v over the reference
+   semantics Exec/Sem.v; dead_code_elimination is the model of Flow/DCE.v (tied to the Rust code by the
+   case files). *)
+From Coq Require Import ZArith List Bool.
+From Falcon Require Import Base.Res IL.Const IL.Expr IL.Func IL.Loc Exec.Sem
+     Flow.RD Flow.UseDef Flow.DCE Flow.DCESpec Flow.DCEProofs.
+Import ListNotations.
+Local Open Scope Z_scope.
+
+(* 1. only operations are replaced, and only by `nop`: address, index, entry, exit, edges, block
+      indices, phi nodes, instruction indices / addresses / positions are the input's.  Every function. *)
+Theorem dce_shape : forall f g, dead_code_elimination f = Ok g -> func_shape f g.
+Proof. exact (dce_shape_max MAX_STEPS). Qed.
+Print Assumptions dce_shape.
+
+(* 2. observational equivalence, by lock-step simulation: for every fuel and every initial state, as long
+      as the input does not fault both runs are at the same location and take the same step, perform the
+      same store (address and value) or none, reach an indirect branch with the same target and equal
+      whole scalar states, reach an intrinsic with equal whole scalar states, and end a block without
+      successors with equal whole scalar states.
+      Hypotheses: C15's structural invariant, and scalars name their (name, ssa) key consistently
+      (the typing discipline of Exec/Sem.v; executable sufficient condition: key_consistent_b). *)
+Theorem dce_equiv : forall f g,
+  cfg_inv (f_cfg f) = true -> key_consistent f -> dead_code_elimination f = Ok g ->
+  forall fuel st, runs_equiv f g fuel st = true.
+Proof. exact (dce_equiv_max MAX_STEPS). Qed.
+Print Assumptions dce_equiv.
+
+Theorem key_consistent_check : forall f,
+  cfg_inv (f_cfg f) = true -> key_consistent_b f = true -> key_consistent f.
+Proof. exact key_consistent_b_sound. Qed.
+Print Assumptions key_consistent_check.
+
+(* the hypotheses are satisfiable, and elimination happens:
+     B0: y = 7 ; x = y + y ; x = 1 ; intrinsic(undeclared effects)      -- only `x = y + y` is dead *)
+Definition sx := mks 1%N 32 None.
+Definition sy := mks 2%N 32 None.
+Definition f_ex : func :=
+  mkfunc 0 (mkcfg [mkblock 0 4 [mkinstr 0 (OAssign sy (EConst (mkc 32 7))) None;
+                                mkinstr 1 (OAssign sx (EBin Add (EScalar sy) (EScalar sy))) None;
+                                mkinstr 2 (OAssign sx (EConst (mkc 32 1))) None;
+                                mkinstr 3 (OIntrinsic (mkintr 0%N [] None None)) None] []]
+                  [] 1 (Some 0) (Some 0)) None.
+Example ex_hyps : cfg_inv (f_cfg f_ex) = true /\ key_consistent_b f_ex = true /\
+  match dead_code_elimination f_ex with
+  | Ok g => List.map (fun b => List.map i_op (b_instrs b)) (f_blocks g) =
+            [[OAssign sy (EConst (mkc 32 7)); ONop None; OAssign sx (EConst (mkc 32 1)); OIntrinsic (mkintr 0%N [] None None)]]
+  | _ => False
+  end.
+Proof. vm_compute. repeat split. Qed.
